@@ -33,11 +33,12 @@ func (p *Probes) inc(name string) {
 
 // Env is the state of one run.
 type Env struct {
-	Sim   *simrt.Sim
-	Prog  *Program
-	Log   *Log
-	Model *Model
-	Prop  *Property
+	Sim     *simrt.Sim
+	rootLib map[int]bool // library tasks alive when setup returned: the root's own goroutines
+	Prog    *Program
+	Log     *Log
+	Model   *Model
+	Prop    *Property
 
 	Root       tally.Scope
 	RootCloser io.Closer
@@ -197,6 +198,10 @@ func (env *Env) mainTask() {
 	if err := env.setup(); err != nil {
 		env.setupErr = err.Error()
 		return
+	}
+	env.rootLib = map[int]bool{}
+	for _, t := range env.Sim.LiveLibTasks() {
+		env.rootLib[t.ID] = true
 	}
 	prog := env.Prog
 	env.main.runOps(prog.Prelude)
